@@ -624,7 +624,12 @@ def _parse_source_for_lambda(
         # Setup the tokenizer
         t_stream = _token_runner(source, lambda_line)
 
-        func_name, start_token = t_stream.find_identifier(["def", "lambda"])
+        # A lambda written inside a one-line `def f(d): return d.Select(lambda ...)` must not
+        # be mistaken for that function.
+        is_lambda = getattr(ast_source, "__name__", None) == "<lambda>"
+        func_name, start_token = t_stream.find_identifier(
+            ["lambda"] if is_lambda else ["def", "lambda"]
+        )
 
         if start_token is None:
             return None
